@@ -254,6 +254,14 @@ func (s String) Without(value Value) Set {
 	if s.Count() == 0 {
 		return None
 	}
+	// Removing an end character may expose holes; a string never starts or
+	// ends with one.
+	for s.s[0] < 0 {
+		s = String{s: s.s[1:], offset: s.offset + 1, holes: s.holes - 1}
+	}
+	for s.s[len(s.s)-1] < 0 {
+		s = String{s: s.s[:len(s.s)-1], offset: s.offset, holes: s.holes - 1}
+	}
 	return s
 }
 
